@@ -32,4 +32,28 @@ def missingAtEveryTick (cfg : Cfg) (y : Nat) : Stream → List SOp → Prop
   | st, .tick :: ops => y ∈ missing st.log cfg.skip ∧ missingAtEveryTick cfg y (tickStream cfg st).1 ops
   | st, .arrive q :: ops => missingAtEveryTick cfg y { st with log := add st.log q } ops
 
+/-- the packet `x` can never (again) be missing. -/
+def Gone (size : Nat) (a : NackSpec.Stream) (x : Int) : Prop :=
+  x ≤ a.first ∨ x ≤ a.hi - size ∨ x ∈ a.recv
+
+/-- the packet `x` is missing (the specification's missing set, element-wise). -/
+def MissingU (size skip : Nat) (a : NackSpec.Stream) (x : Int) : Prop :=
+  a.first < x ∧ a.hi - size < x ∧ x ≤ a.hi - skip ∧ x ∉ a.recv
+
+/-- the packet with unwrapped number `x` lies in the window `(hi − size, hi]` of the specification state. -/
+def inWindowB (size : Nat) : Option NackSpec.Stream → Int → Bool
+  | none, _ => false
+  | some a, x => decide (a.hi - size < x) && decide (x ≤ a.hi)
+
+/-- number of ticks of the run at which the PACKET `x` (unwrapped number under the specification's
+unwrapping, run alongside the model) is requested: `x` is inside the window at that tick and its 16-bit
+value is in the NACK written at that tick. -/
+def reqCountU (cfg : Cfg) (x : Int) : Stream → Option NackSpec.Stream → List SOp → Nat
+  | _, _, [] => 0
+  | st, s, .arrive q :: ops =>
+    reqCountU cfg x { st with log := add st.log q } (NackSpec.arrive cfg.size s q) ops
+  | st, s, .tick :: ops =>
+    (if inWindowB cfg.size s x && ((tickStream cfg st).2.getD []).contains (x % 65536).toNat then 1 else 0)
+      + reqCountU cfg x (tickStream cfg st).1 s ops
+
 end Interceptor.ReceiveLog
